@@ -551,7 +551,8 @@ var Prop = &harness.Prop{
 		for _, es := range []uint16{gmref.SuiteECDHERSAGCM, gmref.SuiteECDHEECDSAGCM} {
 			u = append(u, ecdheUnit(es, true), ecdheUnit(es, false))
 		}
-		u = append(u, tlsTicketIdentityUnit(), nameMatrixUnit(), callbackUnit())
+		u = append(u, tlsTicketIdentityUnit(), nameMatrixUnit(), callbackUnit(),
+			renegIdentityUnit(gmref.SuiteAESCBC, 0x0303), renegIdentityUnit(gmref.SuiteAESGCM, 0x0303), renegIdentityUnit(gmref.SuiteAESCBC, 0x0301), renegIdentityUnit(gmref.SuiteECDHEECDSAGCM, 0x0303), renegIdentityUnit(gmref.SuiteECDHERSAGCM, 0x0303))
 		chd := 4
 		if tier == "thorough" {
 			chd = 5
